@@ -39,6 +39,7 @@ var c09Names = []string{"a", "b", "c", "d"}
 type c09Var struct {
 	Kind int
 	Uses []string
+	Text string // kind 0 without uses: a source text other than the default (comment-only, blank lines)
 }
 
 func c09Variants(maxUses int) []c09Var {
@@ -55,6 +56,8 @@ func c09Variants(maxUses int) []c09Var {
 		}
 	}
 	vs = append(vs, c09Var{Kind: 1}, c09Var{Kind: 2}, c09Var{Kind: 3})
+	// valid scripts without a single statement
+	vs = append(vs, c09Var{Kind: 0, Text: "# only a comment\n"}, c09Var{Kind: 0, Text: "\n  \n"})
 	return vs
 }
 
@@ -69,6 +72,9 @@ func (v c09Var) Src() string {
 	case 3:
 		// a check error whose own position chain has several entries (and spare capacity)
 		return "p(1)\n len(len({1: 2}))"
+	}
+	if v.Text != "" {
+		return v.Text
 	}
 	s := "p(1)\n"
 	for i, u := range v.Uses {
@@ -630,8 +636,8 @@ func init() {
 	run.Register(&run.Check{
 		ID:    "C09",
 		Level: "model_checking",
-		Rule: "script sets over names {a,b,c,d}: each script is valid with an ordered list of <=2 use targets in {a,b,c,d,missing} (31 variants), unparsable, check-failing, or check-failing with a multi-entry error chain; ALL sets of 1..3 scripts (34+34^2+34^3) under ALL parse/check orders x ALL link orders of the loader's two map iterations (overlay rewrite of the range statements), " +
-			"4-script sets with <=1 use each and all 4-sets of valid scripts with <=2 distinct existing targets (quick) / all 34^4 (thorough) under all 24 link orders; every (set, order) is a fresh ParseScript; oracle: verdict map == graph-reachability reference (hence equal across orders), every use call of an accepted script bound to the accepted script of that name, " +
+		Rule: "script sets over names {a,b,c,d}: each script is valid with an ordered list of <=2 use targets in {a,b,c,d,missing} (31 variants), valid without any statement (comment-only, blank lines), unparsable, check-failing, or check-failing with a multi-entry error chain; ALL sets of 1..3 scripts (36+36^2+36^3) under ALL parse/check orders x ALL link orders of the loader's two map iterations (overlay rewrite of the range statements), " +
+			"4-script sets with <=1 use each and all 4-sets of valid scripts with <=2 distinct existing targets (quick) / all 36^4 (thorough) under all 24 link orders; every (set, order) is a fresh ParseScript; oracle: verdict map == graph-reachability reference (hence equal across orders), every use call of an accepted script bound to the accepted script of that name, " +
 			"a dependency-rejected script's position chain = root cause (callee's own error, use of a missing name, or cycle-closing call) followed by the use call sites outward, every entry inside the file it names; plus the unmodified map order 8x on a third of the 3-script sets (conformance of the seam)",
 		Assumptions:    []string{"the loader's only nondeterminism is the iteration order of its two script maps (checked by grep: pkg/engine has no other map range, goroutine or clock)"},
 		Run:            c09Run,
